@@ -478,11 +478,10 @@ func (f *Filt) Go() filter.Filter {
 		if ls != nil {
 			scribbleMap(ls.MatchLabels)
 			for i := range ls.MatchExpressions {
-				// (not the elements of Values: apimachinery's LabelSelectorAsSelector
-				// of this version keeps that slice, and what a caller may do to a
-				// selector it still shares with a filter is not for C18 to say)
 				ls.MatchExpressions[i].Key = "scribbled"
-				ls.MatchExpressions[i].Values = nil
+				for j := range ls.MatchExpressions[i].Values {
+					ls.MatchExpressions[i].Values[j] = "over"
+				}
 			}
 		}
 		return flt
